@@ -259,6 +259,11 @@ func (e *Encoder) SetCReg(adj uint8, incr bool, c ivg.Color) {
 		}
 		adj = 7
 	}
+	if incr && e.err == nil {
+		// Mirror the post-increment of the decoding machine, so that CSel
+		// reports the value that machine will hold at this point.
+		e.cSel = (e.cSel + 1) & 0x3f
+	}
 
 	if x, ok := c.Encode1(); ok {
 		e.buf = append(e.buf, adj|0x80, x)
@@ -297,6 +302,10 @@ func (e *Encoder) SetNReg(adj uint8, incr bool, f float32) {
 			e.err = errInvalidIncrementingAdjustment
 		}
 		adj = 7
+	}
+	if incr && e.err == nil {
+		// Mirror the post-increment of the decoding machine, see SetCReg.
+		e.nSel = (e.nSel + 1) & 0x3f
 	}
 
 	// Try three different encodings and pick the shortest.
